@@ -523,6 +523,30 @@ pub fn gen_filter_from_state(rng: &mut Rng, eng: &Eng, plan: usize) -> SemFilter
             }
         }
     }
+    // the plan is chosen by the clauses above; half of the time the filter carries FURTHER clauses that the chosen
+    // index does not serve and that must still be honoured (a single-valued or multi-valued tag constraint on top of
+    // authors+kinds, kinds or authors on top of ids or tags, a time window around a stored event)
+    if rng.chance(1, 2) {
+        let times: Vec<u64> = eng.model.r.values().map(|e| e.sem.created_at).collect();
+        for _ in 0..(1 + rng.usize_below(2)) {
+            match rng.below(5) {
+                0 if f.tags.is_empty() => {
+                    let mut t = some_tags(rng);
+                    if rng.chance(1, 2) {
+                        for c in t.iter_mut() {
+                            c.1.truncate(1); // single-valued
+                        }
+                    }
+                    f.tags = t;
+                }
+                1 if f.kinds.is_empty() => f.kinds = some_kinds(rng),
+                2 if f.authors.is_empty() => f.authors = some_authors(rng),
+                3 if !times.is_empty() => f.since = Some(*rng.pick(&times)),
+                4 if !times.is_empty() => f.until = Some(*rng.pick(&times)),
+                _ => {}
+            }
+        }
+    }
     let q = eng.model.qualifying(&f, &|_| 0).len();
     if q >= 2 && rng.chance(4, 5) {
         f.limit = Some(1 + rng.below(q as u64 - 1) as u32);
